@@ -29,6 +29,12 @@ def execMapOp (st : DState) (env : Env) (name : String) (args : List String) (ot
     no <| resOut (Map.drain cfg env (nat! k) (fg == "1") w) (fun l => String.intercalate "," (l.map (fmtElem ids))) w
   | "into_iter", [k] =>
     no <| resOut (Map.intoIter cfg env (nat! k) w) (fun l => String.intercalate "," (l.map (fmtElem ids))) w
+  -- consumed through `fold` by a consumer that panics at the k-th element (0 = to completion): the first k are
+  -- handed out, the rest is dropped while unwinding — the same events as `next` x k followed by `drop`
+  | "drain_fold", [k] =>
+    no <| resOut (Map.drain cfg (foldEnv env (nat! k) w) (if nat! k = 0 then w.t.items else nat! k) false w) (fun l => String.intercalate "," (l.map (fmtElem ids))) w
+  | "into_iter_fold", [k] =>
+    no <| resOut (Map.intoIter cfg (foldEnv env (nat! k) w) (if nat! k = 0 then w.t.items else nat! k) w) (fun l => String.intercalate "," (l.map (fmtElem ids))) w
   | "iter", p :: _ =>
     match Map.iterObserve cfg w.t (nat! p) with
     | .error f => ({ ret := s!"FAULT({f})", w := w }, true, none)
